@@ -33,7 +33,7 @@ func init() {
 			}
 			for _, a := range []string{"paren", "range", "unary", "bool", "cmp"} {
 				k := 6
-				if tier == "thorough" {
+				if tier == "thorough" || a == "bool" {
 					k = 7
 				}
 				for _, u := range enum.SeqUnits("tok", a, len(enum.Alphabets[a]), k, 2) {
